@@ -398,7 +398,7 @@ class DimensionalityEstimator(BaseEstimator):
 
     def _set_local_dim_func(self):
         x = self.x
-        landmarks = self.landmarks
+        landmarks = self._predictor_landmarks()
         pre_transformation = self.pre_transformation[0, :]
         pre_transformation_std = self.pre_transformation_std
         if pre_transformation_std is not None:
@@ -430,7 +430,7 @@ class DimensionalityEstimator(BaseEstimator):
 
     def _set_log_density_func(self):
         x = self.x
-        landmarks = self.landmarks
+        landmarks = self._predictor_landmarks()
         pre_transformation = self.pre_transformation[1, :]
         pre_transformation_std = self.pre_transformation_std
         if pre_transformation_std is not None:
